@@ -110,8 +110,11 @@ func MeasureClockOffsetSCION(ctx context.Context, log *slog.Logger,
 	sps := make([]snet.Path, len(ntpcs))
 	nsps := 0
 	for i, c := range ntpcs {
+		// the path to a server in the local AS has no interfaces and hence an
+		// empty fingerprint: whether there is a path to keep is a matter of the
+		// client's mode, not of the fingerprint being non-empty
 		pf := c.InterleavedModePath()
-		if pf != "" {
+		if c.InInterleavedMode() {
 			for j := range len(ps) {
 				if p := ps[j]; snet.Fingerprint(p).String() == pf {
 					ps[j] = ps[len(ps)-1]
